@@ -32,6 +32,7 @@ func __len(x any) int { return 0 }
 func __seqeq(a, b any) bool { return true }
 func __fresh(x any) bool { return true }
 func __alloc0(x any) bool { return true }
+func __allocated(x any) bool { return true }
 func __isStoreErr(err error, t int) bool { return true }
 func __dyn(x any, name string) bool { return true }
 func __bytes(x []byte) []byte { return x }
